@@ -65,6 +65,10 @@ type Prop struct {
 	// Race lists free-running bodies for the separate -race pass (sampling; the
 	// cooperative scheduler's hand-offs would hide data races from the detector).
 	Race func() []RaceBody
+	// Arch32 asks for the directly enumerated part to be run a second time in a worker
+	// built for GOARCH=386, where int has 32 bits: length fields read from the wire as
+	// uint32 and converted to int behave differently there.
+	Arch32 bool
 }
 
 // RaceBody is one free-running scenario; Run returns a functional error, if any.
